@@ -34,6 +34,19 @@ def prepare(ctx):
         with open(p, "wb") as f:
             f.write(out)
         _docs[n] = (lib, p, out)
+    # a corpus group document: two corpora wrapped in an abi-corpus-group (ids of the second one renamed)
+    import re
+    if "basic" in _docs and "symbols" in _docs:
+        a, b = _docs["basic"][2], _docs["symbols"][2]
+        b = re.sub(rb"type-id-(\d+)", rb"type-id-g\1", b)
+        g = b"<abi-corpus-group version='2.1'>\n" + a.replace(b"<abi-corpus ", b"<abi-corpus path='a.so' ", 1) + b.replace(b"<abi-corpus ", b"<abi-corpus path='b.so' ", 1) + b"</abi-corpus-group>\n"
+        p = os.path.join(ctx.scratch, "group.abi")
+        with open(p, "wb") as f:
+            f.write(g)
+        rc, out, err = toolrun.run_tool(ctx, V, "abidiff", [p, p], spawn=True)
+        if rc != 0:
+            raise core.HarnessError("the generated corpus-group document is not accepted: rc=%s %s" % (rc, err[-300:]))
+        _docs["group"] = (None, p, g)
     lib = seeds.build("basic")
     _app = cbuild.compile_units([("app.c", "struct point; extern int g_counter; extern void set_name(const char*);\nint main(void){ set_name(\"x\"); return g_counter; }\n", ["-g"])],
                                 link_flags=["-L" + os.path.dirname(lib), "-lbasic"], out_name="app", kind="exe")
@@ -77,8 +90,11 @@ def _class_of(doc, pos):
 
 def _judge(ctx, doc, upath, cls, what, fails, outs, abicompat=True):
     lib, full, data = _docs[doc]
-    runs = [("abidiff", [full, upath], "arg2-vs-abixml"), ("abidiff", [upath, full], "arg1-vs-abixml"),
-            ("abidiff", [lib, upath], "arg2-vs-elf"), ("abidiff", [upath, lib], "arg1-vs-elf")]
+    runs = [("abidiff", [full, upath], "arg2-vs-abixml"), ("abidiff", [upath, full], "arg1-vs-abixml")]
+    if lib:
+        runs += [("abidiff", [lib, upath], "arg2-vs-elf"), ("abidiff", [upath, lib], "arg1-vs-elf")]
+    else:
+        runs += [("abidiff", [upath, upath], "both-args")]
     if abicompat and doc == "basic":
         runs += [("abicompat", [_app, upath, lib], "lib1"), ("abicompat", [_app, lib, upath], "lib2")]
     n = 0
@@ -113,7 +129,7 @@ def evaluate(ctx, e):
                 f.write(u)
             nt += 1
             f0 = len(fails)
-            n += _judge(ctx, e["doc"], up, "truncated-" + _class_of(e["doc"], pos), "prefix of %d/%d bytes of %s.abi" % (pos, len(data), e["doc"]), fails, outs)
+            n += _judge(ctx, e["doc"], up, ("group-" if e["doc"] == "group" else "") + "truncated-" + _class_of(e["doc"], pos), "prefix of %d/%d bytes of %s.abi" % (pos, len(data), e["doc"]), fails, outs)
             for fl in fails[f0:]:
                 fl["element"] = {"kind": "prefix", "doc": e["doc"], "pos": [pos]}
     elif e["kind"] == "byte":
@@ -129,8 +145,8 @@ def evaluate(ctx, e):
             for fl in fails[f0:]:
                 fl["element"] = {"kind": "byte", "doc": e["doc"], "stride": len(data) + 1, "offset": pos}
     else:
-        elf = open(lib, "rb").read()
-        cases = {"empty-file": b"", "one-byte-file": b"<", "text-file": b"root:x:0:0:root:/root:/bin/bash\n" * 20, "elf-header-only": elf[:64],
+        elf = open(lib or _docs["basic"][0], "rb").read()
+        cases = {"trailing-garbage": data + b"garbage<", "mismatched-end-tag": data.replace(b"</abi-instr>", b"</abi-corpus>", 1),"empty-file": b"", "one-byte-file": b"<", "text-file": b"root:x:0:0:root:/root:/bin/bash\n" * 20, "elf-header-only": elf[:64],
                  "elf-first-kilobyte": elf[:1024], "elf-magic-garbage": b"\x7fELF" + b"\x02\x01\x01" + b"A" * 300,
                  "xml-prolog-only": b"<?xml version='1.0'?>\n", "other-xml-root": b"<html><body/></html>\n"}
         for name, content in cases.items():
